@@ -1114,6 +1114,43 @@ def run_plain_late_subscriber(pipe, items, k, dispose_first_at=None):
     return res
 
 
+def run_plain_tee(tee, items):
+    """A tee_map on a plain observable with a recorder at the tail of every branch: what each
+    branch delivered and whether it completed, and what the tee_map delivered."""
+    import rx.operators as rxo
+    import rxsci as rs
+    from rx.subject import Subject
+    ctx = {'routers': [], 'share_ops': False}
+    logs, branches = [], []
+    for bi, b in enumerate(tee['branches']):
+        log = {'out': [], 'end': 'open'}
+        logs.append(log)
+        ops_ = build(b, None, [1, bi + 1], ctx)
+
+        def done(log=log):
+            log['end'] = 'completed'
+
+        def failed(e, log=log):
+            log['end'] = 'error'
+        ops_.append(rxo.do_action(on_next=lambda v, log=log: log['out'].append(enc(v)),
+                                  on_error=failed, on_completed=done))
+        branches.append(ops_)
+    out = {'out': [], 'end': 'open'}
+    src = Subject()
+    with C.quiet_stdout():
+        try:
+            src.pipe(rs.ops.tee_map(*branches, join=tee['join'])).subscribe(
+                on_next=lambda v: out['out'].append(enc(v)),
+                on_error=lambda e: out.__setitem__('end', 'error'),
+                on_completed=lambda: out.__setitem__('end', 'completed'))
+            for v in items:
+                src.on_next(dec(v))
+            src.on_completed()
+        except Exception as e:
+            out['end'] = 'raised:' + type(e).__name__
+    return logs, out
+
+
 def run_plain(pipe, items, complete=True, share_ops=False, feedback=False, reapply=None):
     """The plain (non multiplexed) code path of the same pipeline: items of one group
     as an ordinary observable.  Returns outputs with the number of source items pushed
